@@ -9,6 +9,7 @@ import itertools
 import random
 
 from ..rt import scen
+from . import regkernel
 from .rtcommon import HOWS, RT_ASSUMPTIONS, make_replay
 
 NAMES = ["AtMostOneAccepting", "GuardReleasedOnEveryExit", "SecondAcceptRejectedCleanly", "ShutdownDoesNotRaise", "ShutdownReturnsObserved", "TerminationObserved", "RestartPossible", "StopReturnsNormally"]
@@ -96,5 +97,9 @@ def run(ctx):
     for allow, ss in groups.items():
         scen.run_family(ctx, ss, names=NAMES, allow=allow, mc_invariants=["AtMostOneAccepting", "GuardReleasedOnEveryExit", "CleanupBeforeEnd"], mc_properties=["ShutdownReturns"], per_shape=10 if thorough else 4, depth=40, label="c12" + "".join(a[:2] for a in allow), script_hook=fix_script, extra_scenarios=(extra if first else ()))
         first = False
+    # the stopping kernel at hook granularity (Stopping.tla): every transition of shutdown()
+    # racing registrations is forced on the real runtime; shutdown() and accept() must both
+    # return normally on every schedule
+    regkernel.run_stopping(ctx, only=regkernel.C12_FORMULAS)
     ctx.extra["rule"] = "shapes = how runner 1 ends (shutdown from a thread / SIGINT / failing payload) x payload population at that time (none, sleeping coroutines with cleanup, blocked thread, payloads adopted concurrently) with a concurrent second accept placed by TLC anywhere in the behaviour, and always a restart attempt with a second runner afterwards; targeted: shutdown racing the service loop's first instant, several rejected accepts"
     ctx.assumptions = RT_ASSUMPTIONS + ["finitely many adoptions after shutdown() begins", "each history runs in its own process (the accept guard is process-wide); SIGINT is delivered to the main thread, which is the one inside accept()"]
